@@ -196,14 +196,6 @@ pub open spec fn add_ranges(b: int, p: usize, Sl: int, El: int, Sr: int, Er: int
 pub open spec fn add_fits(b: int, p: usize, Sl: int, Sr: int) -> bool {
     p != 0 ==> ndigits(b, Sl) <= p && ndigits(b, Sr) <= p
 }
-/// KNOWN DEFECT REGION (genuine, reproduced natively: base 2, HalfAway, p = 6: 1*2^4 + 1*2^-26 = 33*2^-1, error 1 ulp):
-/// a true addition in base 2 under HalfAway whose larger operand `big` (larger exponent) has fewer than p digits while
-/// the other operand `small` lies more than digits(small)+1 positions below it and below the rounding position: the
-/// far-smaller operand is replaced by a sentinel of exactly 1/2 unit, which HalfAway rounds up.
-pub open spec fn add_defect_region(m: Mode, b: int, p: usize, Sbig: int, Ebig: int, sub: bool, Ssmall: int, Esmall: int) -> bool {
-    let (dbig, dsmall, ediff) = (ndigits(b, Sbig) as int, ndigits(b, Ssmall) as int, Ebig - Esmall);
-    b == 2 && (m is HalfAway) && p != 0 && !sub && dbig < p && dsmall + 1 < ediff && dsmall + 1 + p < dbig + ediff
-}
 
 /// aligning the operand with the smaller exponent by splitting it k digits from the right (branches "align rhs" /
 /// "align both" of repr_add_large_small / repr_add_small_large): Sa is the (shifted) operand with the larger exponent,
@@ -387,12 +379,6 @@ pub open spec fn sum_c03<const B: Word>(m: Mode, b: int, p: usize, N: int, F: in
     } else {
         exists|j: nat| #[trigger] rounded_at(m, b, N, F, j, ret)
     }
-}
-/// the defect region of add_defect_region for whichever operand has the larger exponent
-pub open spec fn add_defect(m: Mode, b: int, p: usize, Sl: int, El: int, sg: Sign, Sr: int, Er: int) -> bool {
-    Sl != 0 && Sr != 0 && (
-        (El > Er && add_defect_region(m, b, p, Sl, El, true_sub(Sl, sg, Sr), Sr, Er))
-        || (El < Er && add_defect_region(m, b, p, Sr, Er, true_sub(Sl, sg, Sr), Sl, El)))
 }
 /// an operand that fits the precision passes `repr_round(_ref)` unchanged; adding zero to it is exact
 pub proof fn lemma_add_zero<const B: Word>(m: Mode, b: int, p: usize, S: int, E: int, N: int, F: int, ret: Rounded<Repr<B>>)
